@@ -18,6 +18,8 @@ import (
 	"io"
 	"net"
 	"sync"
+
+	"github.com/samaritan-proxy/samaritan/utils/verifhook"
 )
 
 type session struct {
@@ -83,13 +85,17 @@ func (s *session) loopRead() {
 		}
 
 		req := newRawRequest(v)
+		verifhook.At2("session.loopRead.decoded", s, req)
 		s.p.handleRequest(req)
 
+		verifhook.At2("session.loopRead.handled", s, req)
 		select {
 		case s.processingReqs <- req:
 		case <-s.quit:
+			verifhook.At2("session.loopRead.quit", s, req)
 			return
 		}
+		verifhook.At2("session.loopRead.enqueued", s, req)
 	}
 }
 
@@ -105,7 +111,9 @@ func (s *session) loopWrite() {
 		case req = <-s.processingReqs:
 		}
 
+		verifhook.At2("session.loopWrite.got", s, req)
 		req.Wait()
+		verifhook.At2("session.loopWrite.waited", s, req)
 		// TODO(kirk91): abstract response
 		resp := req.Response()
 		if err = s.enc.Encode(resp); err != nil {
